@@ -8,7 +8,7 @@ pub fn def() -> PropDef {
     PropDef {
         id: "C16",
         builds: BOTH,
-        rule: "every paragraph of 1..=k words from the C15 vocabulary x o1 (widths 0..=12 x 9 indent pairs x algorithms x LF/CRLF x trailing ending yes/no; space-only breaking) restricted to filled forms with >= 2 lines x o2 (widths {0,3,5,8,20, widest line of the filled input and its neighbours} x LF/CRLF x algorithms, space-only breaking, plus default Options at each width); refill(fill(t,o1)[+e1], o2) == fill(t, o2 with o1's indents)[+e2]; non-trivial = every evaluated case (a filled form with >= 2 lines)",
+        rule: "every paragraph of 1..=k words from the C15 vocabulary x o1 (widths 0..=12 x 9 indent pairs x algorithms x LF/CRLF x trailing ending yes/no; space-only breaking) restricted to filled forms with >= 2 lines x o2 (widths {0,3,5,8,20, widest line of the filled input and its neighbours} x LF/CRLF x algorithms, space-only breaking, plus default Options at each width, with and without indents of its own); refill(fill(t,o1)[+e1], o2) == fill(t, o2 with o1's indents)[+e2]; non-trivial = every evaluated case (a filled form with >= 2 lines)",
         assumptions: BASE_ASSUMPTIONS,
         floor: |t| t.pick(100_000, 300_000),
         run,
@@ -56,6 +56,8 @@ fn run(r: &mut Run) -> Result<(), MachineryError> {
                                     for le2 in [LineEnding::LF, LineEnding::CRLF] {
                                         let mut o2s: Vec<(String, Options<'static>)> = algs().into_iter().map(|(n, a)| (format!("space-only {}", n), space_only_options(w2, a, le2, "", ""))).collect();
                                         o2s.push(("Options::new defaults".to_string(), Options::new(w2).line_ending(le2)));
+                                        // o2 carrying indents of its own: the statement replaces them by o1's
+                                        o2s.push(("Options::new defaults with indents (\"## \", \"    \") of its own".to_string(), Options::new(w2).line_ending(le2).initial_indent("## ").subsequent_indent("    ")));
                                         for (o2n, o2) in o2s {
                                             cx.eval();
                                             cx.nontrivial();
